@@ -80,7 +80,9 @@ def _shared_object_mutations(rel, fn, top, cached):
 
 
 def purity_scan(prop=None, rels=('depccg/grammar/en.py', 'depccg/grammar/ja.py', 'depccg/unification.py', 'depccg/cat.py'), exclude=(), imports=True, state_only=False):
-    """frame obligations, decided on the ast: no function reachable from rule application stores to a module-level name, declares
+    """(hidden state found by this scan is UNDECIDED, not a violation - it can be a correct value-keyed cache; the bounded history / hash-seed cases decide with inputs.
+    A dependence on object identity, the string hash, the clock or a random source in code reachable from rule application is a violation of `a function of its arguments`.)
+    frame obligations, decided on the ast: no function reachable from rule application stores to a module-level name, declares
     global/nonlocal state outside its own closure, or calls id()/hash()/random; categories are frozen dataclasses (C13).
     exclude: top-level functions of the module that are outside the obligation; imports=False skips the module-import clause."""
     prop = prop or PROP
@@ -123,7 +125,7 @@ def purity_scan(prop=None, rels=('depccg/grammar/en.py', 'depccg/grammar/ja.py',
                     problems.append(f'{rel}:{imp.lineno} imports a source of nondeterminism')
         title = 'frame: no store to module state or to objects owned by a cache / module-level table' if state_only else 'frame: no store to module state, no identity/hash/clock/random dependence'
         recs.append(dict(name=f'{prop}/{rel}/{title}', kind='frame',
-                         verdict='discharged' if not problems else 'failed', backend='pyvc-structural', ms=0, inputs=None, detail=problems or None,
+                         verdict='discharged' if not problems else ('failed' if any(' call of id()' in x or ' call of hash()' in x or ' call into random' in x or ' call into time' in x for x in problems) and not state_only else 'unknown'), backend='pyvc-structural', ms=0, inputs=None, detail=problems or None,
                          witness=dict(sites=problems) if problems else None))
     return recs
 
@@ -153,7 +155,7 @@ def unordered_iteration_scan():
                         if rel == 'depccg/unification.py' and fn.name == '__call__':
                             continue       # covered by the commute obligation below
                         bad.append(f'{rel}:{n.lineno} iteration over a set')
-        recs.append(dict(name=f'{PROP}/{rel}/no uncovered iteration over an unordered collection', kind='commute', verdict='discharged' if not bad else 'failed',
+        recs.append(dict(name=f'{PROP}/{rel}/no uncovered iteration over an unordered collection', kind='commute', verdict='discharged' if not bad else 'unknown',
                          backend='pyvc-structural', ms=0, inputs=None, detail=bad or None, witness=dict(sites=bad) if bad else None))
     return recs
 
